@@ -9,6 +9,7 @@ import (
 )
 
 func init() {
+	vrt.Register("zzverif.VC07Range", VC07Range)
 	vrt.Register("zzverif.VC07Invalid", VC07Invalid)
 	vrt.Register("zzverif.VC07All", VC07All)
 }
@@ -48,6 +49,24 @@ func VC07Invalid() {
 	vrt.NoteBytes("bytes", out)
 	vrt.Reach("c07i.ran")
 	vrt.Assert(oc != "ok" || diagnosed(), "c07.diagnosed")
+}
+
+// VC07Range: operands with an architectural range (I/O ports and interrupt
+// numbers are one byte) given a solver-variable value beyond it: never
+// assembled silently (the byte would be truncated to another port/vector).
+func VC07Range() {
+	mode := []int{16, 32}[vrt.Choose("mode", 2)]
+	form := vrt.ChooseStr("form", []string{"OUT %,AL", "OUT %,AX", "OUT %,EAX", "IN AL,%", "IN AX,%", "IN EAX,%", "INT %"})
+	p := vrt.IntRange("p", 256, 99999)
+	var sb subs
+	stmt := strings.Replace(form, "%", lit(p, &sb), 1)
+	src := embed(stmt, mode)
+	vrt.Note("src", src)
+	out, oc := AssembleT(src, sb.list, "s")
+	vrt.Note("outcome", oc)
+	vrt.NoteBytes("bytes", out)
+	vrt.Reach("c07r.ran")
+	vrt.Assert(oc != "ok" || diagnosed(), "c07.range")
 }
 
 var c07Shapes = []string{"", "AX", "AX,BX", "AX,1", "1", "[BX]", "AX,[BX]", "AX,BX,1", "EAX", "lbl0"}
